@@ -34,6 +34,10 @@ type M = map[string]interface{}
 func atomsOf(s string) []interface{} {
 	r := make([]interface{}, 0, len(s))
 	for _, c := range s {
+		if c == 'é' { // TLC prints text beyond ASCII as `?`: the specification's one non-ASCII character is the atom U+E9
+			r = append(r, "U+E9")
+			continue
+		}
 		r = append(r, string(c))
 	}
 	return r
@@ -48,6 +52,10 @@ func strOfAtoms(x interface{}) string {
 	}
 	var sb strings.Builder
 	for _, c := range x.([]interface{}) {
+		if c.(string) == "U+E9" {
+			sb.WriteString("é")
+			continue
+		}
 		sb.WriteString(c.(string))
 	}
 	return sb.String()
